@@ -378,6 +378,14 @@ func genOps(prop string, r *Rng, n int, tier string, emit func(string)) {
 			k := allKinds[r.Intn(len(allKinds))]
 			emit(opWith("encspec", dirtyXRHeaders(r, genValue(r, k, false))))
 		}
+		for i := 0; i < n/40; i++ { // Marshal of a list, CompoundPacket.Marshal
+			emit("cenc " + packetsTokens(genCompoundSeq(r)))
+			var ps []rtcp.Packet
+			for k := 1 + r.Intn(4); k > 0; k-- {
+				ps = append(ps, genValue(r, allKinds[r.Intn(len(allKinds))], false))
+			}
+			emit("uenc " + packetsTokens(ps))
+		}
 		for i := 0; i < n/40; i++ { // the other exported encoders: MarshalTo into a used buffer, Marshal of a decoded list
 			q := genValue(r, "REMB", false)
 			emit(fmt.Sprintf("rembto %s %d", bodyTokens(q), q.MarshalSize()+r.Pick(0, 0, 4)))
@@ -402,6 +410,22 @@ func genOps(prop string, r *Rng, n int, tier string, emit func(string)) {
 				emit("rt 1 " + packetTokens(v))
 			}
 			emit(opWith("rto", &rtcp.Goodbye{Sources: []uint32{1}, Reason: "bye\x00"}))
+		}
+		for i := 0; i < n/20; i++ { // CompoundPacket.Unmarshal: canonical members, and members in other valid encodings
+			if b, err := rtcp.Marshal(genCompoundSeq(r)); err == nil && r.Bool() {
+				emit("cdec " + hx(b))
+				continue
+			}
+			d := []byte{0x80, 201, 0, 1, 0, 0, 0, 9, 0x81, 202, 0, 3, 0, 0, 0, 9, 1, 2, 'a', 'b', 0, 0, 0, 0}
+			for k := 1 + r.Intn(3); k > 0; k-- {
+				f := strings.Fields(genVariantOp(r))
+				if len(f) >= 2 && f[1] != "-" {
+					if b, err := hex.DecodeString(f[1]); err == nil && countFrames(b) >= 1 {
+						d = append(d, b...)
+					}
+				}
+			}
+			emit("cdec " + hx(d))
 		}
 		for i := 0; i < n/8; i++ { // the type's decoder on the type's own (RFC) encoding of any well-formed value
 			k := allKinds[r.Intn(len(allKinds))]
@@ -462,6 +486,9 @@ func genOps(prop string, r *Rng, n int, tier string, emit func(string)) {
 			emit("decv.APP " + hx(finish(b)) + " | " + bodyTokens(v))
 		}
 	case "C05":
+		for i := 0; i < n/20; i++ {
+			emit("cenc " + packetsTokens(genCompoundSeq(r)))
+		}
 		for i := 0; i < n; i++ {
 			k := allKinds[r.Intn(len(allKinds))]
 			p := dirtyXRHeaders(r, genValue(r, k, r.Chance(1, 3)))
@@ -880,6 +907,9 @@ func genOps(prop string, r *Rng, n int, tier string, emit func(string)) {
 				b = genTwccWrapValid(r)
 			}
 			emit("dec.TWCC " + hx(b))
+			if r.Chance(1, 10) {
+				emit("udec " + hx(b))
+			}
 			if r.Chance(1, 12) { // a second packet decoded into the same value, often one reporting on no packets
 				b2 := genTwccBytes(r)
 				if r.Bool() {
